@@ -2,6 +2,7 @@ import Req.Driver.Proto
 import Req.Client.HeaderSort
 import Req.H2.Fields
 import Req.Driver.WireUtil
+import Req.H2.HeaderBlock
 /-! Driver lanes of C16. -/
 namespace Req.Driver.L.C16
 open Req.Proto
@@ -62,7 +63,33 @@ def laneFields : List String → String
     | _, _, _, _, _, _, _, _, _, _ => "bad-op"
   | _ => "bad-op"
 
+def showHFrame (f : Req.H2.HeaderBlock.HFrame) : String :=
+  (if f.cont then "C" else "H") ++ toString f.frag.length ++
+    (if f.endHeaders then "h" else "") ++ (if f.endStream then "s" else "") ++
+    (if f.prio then "p" else "")
+
+def showRecv : Req.H2.HeaderBlock.Recv → String
+  | .idle => "idle"
+  | .waiting acc _ => s!"waiting:{acc.length}"
+  | .delivered b es => s!"delivered:{b.length}:{if es then 1 else 0}"
+  | .error => "error"
+
+/-- `c16hframes <blockLen> <maxFrameSize> <prio 0|1> <endStream 0|1>` → the HEADERS / CONTINUATION
+frames `writeHeaders` emits for a block of that length (fragment length + flags each) and what a
+peer enforcing that frame size ends up with. -/
+def laneHFrames : List String → String
+  | [len, mf, pr, es] =>
+    match len.toNat?, mf.toNat?, Wire.decodeBool pr, Wire.decodeBool es with
+    | some len, some mf, some pr, some es =>
+      if mf ≤ 5 then "bad-op" else
+      let fs := Req.H2.HeaderBlock.writeHeaders es pr mf (List.replicate len 0)
+      (if fs.isEmpty then "-" else ",".intercalate (fs.map showHFrame)) ++ " " ++
+        showRecv (Req.H2.HeaderBlock.receive mf fs)
+    | _, _, _, _ => "bad-op"
+  | _ => "bad-op"
+
 def lanes : List (String × (List String → String)) := [
+  ("c16hframes", laneHFrames),
   ("sort", laneSort),
   ("c16fields", laneFields)
 ]
